@@ -25,6 +25,8 @@ DISPATCH = {
     "C15": ("harness.props.c15", "run"),
     "C16": ("harness.props.c16", "run"),
     "C17": ("harness.props.c17", "run"),
+    "C18": ("harness.props.c18", "run"),
+    "C19": ("harness.props.c19", "run"),
 }
 
 
